@@ -71,8 +71,13 @@ def check(ctx):
             prec_vars[n.targets[0].id] = (n, _loop_depth(n))
     if len(prec_vars) != 2:
         raise AnalysisError(f"precedence-climbing schema not recognised in _parse_binary_expression (precedence variables found: {sorted(prec_vars)})")
-    outer = min(prec_vars, key=lambda k: prec_vars[k][1])
-    inner = max(prec_vars, key=lambda k: prec_vars[k][1])
+    by_line = sorted(prec_vars, key=lambda k: prec_vars[k][0].lineno)
+    outer, inner = by_line[0], by_line[1]          # the operator's own precedence is read first, the look-ahead operator's second
+    ok = prec_vars[inner][1] == prec_vars[outer][1] + 1
+    ctx.oblige("R-C02.2", "the right operand absorbs every tighter operator: the look-ahead test sits in a loop of its own", ok, sample={"rule": "R-C02.2", "loop depth of the operator read": prec_vars[outer][1], "loop depth of the look-ahead read": prec_vars[inner][1]})
+    if not ok:
+        ctx.violation("R-C02.2", "climb-absorb-once", f"in _parse_binary_expression the look-ahead precedence `{inner}` is read at loop depth {prec_vars[inner][1]} (the operator's own `{outer}` at depth {prec_vars[outer][1]}): the right operand must absorb tighter "
+                      "operators in a loop of its own - with a single step `i < a * b + c` groups as `(i < a * b) + c`", file=px.rel, function="CParser._parse_binary_expression", line=prec_vars[inner][0].lineno)
     found_exit = found_rec = False
     for n in ast.walk(fn):
         if isinstance(n, ast.Compare) and len(n.ops) == 1:
